@@ -1327,6 +1327,23 @@ impl LsmTree {
                 'inner: loop {
                     let version = self.take_snapshot();
                     let compaction = version.version.next_compaction();
+                    #[cfg(rescrv_blue_verif)]
+                    crate::verif::emit(
+                        "sched.select",
+                        [
+                            compaction.is_some() as u64
+                                | ((version.version.should_stall_ingest() as u64) << 1),
+                            version.version.levels[0].ssts.len() as u64,
+                            match &compaction {
+                                Some(c) => {
+                                    ((c.core.lower_level as u64) << 48)
+                                        | ((c.core.upper_level as u64) << 32)
+                                        | (c.core.inputs.len() as u64 & 0xffff_ffff)
+                                }
+                                None => version.version.ongoing.lock().unwrap().len() as u64,
+                            },
+                        ],
+                    );
                     if let Some(compaction) = compaction {
                         #[cfg(rescrv_blue_verif)]
                         crate::verif::record_chosen(crate::verif::ChosenCompaction {
@@ -1345,7 +1362,20 @@ impl LsmTree {
                         if crate::verif::single_step() {
                             return Ok(());
                         }
+                        #[cfg(rescrv_blue_verif)]
+                        {
+                            if crate::verif::shutdown_requested(self.verif_id()) {
+                                return Ok(());
+                            }
+                            crate::verif::park(self.verif_id(), "compact");
+                            crate::verif::emit("sched.compact.park", [0, 0, 0]);
+                        }
                         mutex = self.compact.wait(mutex).unwrap();
+                        #[cfg(rescrv_blue_verif)]
+                        {
+                            let notified = crate::verif::unpark(self.verif_id());
+                            crate::verif::emit("sched.compact.wake", [notified as u64, 0, 0]);
+                        }
                     }
                 }
             };
@@ -1353,6 +1383,8 @@ impl LsmTree {
                 let _mutex = self.compaction.lock().unwrap();
                 let version = self.take_snapshot();
                 let _ = version.version.release_compaction(compaction);
+                #[cfg(rescrv_blue_verif)]
+                crate::verif::emit("sched.compact.abort", [0, 0, 0]);
                 return Err(err);
             }
         }
@@ -1576,9 +1608,38 @@ impl LsmTree {
     ) -> Result<(), SError> {
         let mut mutex = self.compaction.lock().unwrap();
         let mut version = self.take_snapshot();
+        #[cfg(rescrv_blue_verif)]
+        crate::verif::emit(
+            "sched.ingest.enter",
+            [
+                version.version.levels[0].ssts.len() as u64,
+                version.version.levels[0].size(),
+                version.version.should_stall_ingest() as u64,
+            ],
+        );
         while version.version.should_stall_ingest() {
             INGEST_STALL.click();
+            #[cfg(rescrv_blue_verif)]
+            {
+                if crate::verif::shutdown_requested(self.verif_id()) {
+                    return Err(logic_error("verification harness asked the store to shut down"));
+                }
+                crate::verif::park(self.verif_id(), "stall");
+                crate::verif::emit(
+                    "sched.ingest.park",
+                    [
+                        version.version.levels[0].ssts.len() as u64,
+                        version.version.levels[0].size(),
+                        0,
+                    ],
+                );
+            }
             mutex = self.stall.wait(mutex).unwrap();
+            #[cfg(rescrv_blue_verif)]
+            {
+                let notified = crate::verif::unpark(self.verif_id());
+                crate::verif::emit("sched.ingest.wake", [notified as u64, 0, 0]);
+            }
             let mut version2 = self.take_snapshot();
             std::mem::swap(&mut version, &mut version2);
             drop(version2);
@@ -1597,7 +1658,21 @@ impl LsmTree {
         // TODO(rescrv): don't hold the lock for computing setsum.
         let tree_setsum = new_version.compute_setsum();
         assert_eq!(tree_setsum, output_setsum);
+        #[cfg(rescrv_blue_verif)]
+        let verif_l0 = (
+            new_version.levels[0].ssts.len() as u64,
+            new_version.levels[0].size(),
+        );
         self.install_version(new_version);
+        #[cfg(rescrv_blue_verif)]
+        crate::verif::emit(
+            "sched.ingest.install",
+            [
+                verif_l0.0,
+                verif_l0.1,
+                crate::verif::notify(self.verif_id(), "compact", false),
+            ],
+        );
         self.compact.notify_all();
         Ok(())
     }
@@ -1622,7 +1697,21 @@ impl LsmTree {
         // TODO(rescrv): don't hold the lock for computing setsum.
         let tree_setsum = new_version.compute_setsum();
         assert_eq!(tree_setsum, output_setsum);
+        #[cfg(rescrv_blue_verif)]
+        let verif_l0 = (
+            new_version.levels[0].ssts.len() as u64,
+            new_version.levels[0].size(),
+        );
         self.install_version(new_version);
+        #[cfg(rescrv_blue_verif)]
+        crate::verif::emit(
+            "sched.finish",
+            [
+                verif_l0.0,
+                verif_l0.1,
+                crate::verif::notify(self.verif_id(), "stall", false),
+            ],
+        );
         self.stall.notify_all();
         Ok(())
     }
@@ -1640,7 +1729,21 @@ impl LsmTree {
         let new_version = Arc::new(version.version.apply_compaction(compaction, vec![meta])?);
         let tree_setsum2 = new_version.compute_setsum();
         assert_eq!(tree_setsum1, tree_setsum2);
+        #[cfg(rescrv_blue_verif)]
+        let verif_l0 = (
+            new_version.levels[0].ssts.len() as u64,
+            new_version.levels[0].size(),
+        );
         self.install_version(new_version);
+        #[cfg(rescrv_blue_verif)]
+        crate::verif::emit(
+            "sched.finish",
+            [
+                verif_l0.0,
+                verif_l0.1,
+                crate::verif::notify(self.verif_id(), "stall", false) | (1 << 32),
+            ],
+        );
         self.stall.notify_all();
         Ok(())
     }
@@ -1737,6 +1840,45 @@ impl LsmTree {
         };
         let ongoing = version.version.ongoing.lock().unwrap().len();
         (stall, selectable, ongoing)
+    }
+
+    /// Verification hook: the name under which this tree's threads appear in the registry of
+    /// sleepers (`crate::verif::parked`).
+    #[cfg(rescrv_blue_verif)]
+    pub fn verif_id(&self) -> u64 {
+        self as *const LsmTree as u64
+    }
+
+    /// Verification hook: which of this tree's threads sleep on which condition variable (`stall`,
+    /// `compact`; `needs_flush` when a `KeyValueStore` sits on top), read while holding the
+    /// `compaction` mutex, together with `verif_status` taken under the same hold of the mutex.
+    /// Observer only.
+    #[cfg(rescrv_blue_verif)]
+    pub fn verif_parked(&self) -> (Vec<crate::verif::Parked>, (bool, bool, usize)) {
+        let _mutex = self.compaction.lock().unwrap();
+        let version = self.take_snapshot();
+        let stall = version.version.should_stall_ingest();
+        let selectable = match version.version.next_compaction() {
+            Some(c) => {
+                let _ = version.version.release_compaction(c);
+                true
+            }
+            None => false,
+        };
+        let ongoing = version.version.ongoing.lock().unwrap().len();
+        (crate::verif::parked(self.verif_id()), (stall, selectable, ongoing))
+    }
+
+    /// Verification hook: make the loops of this tree return at the point where they would sleep
+    /// and wake the sleepers (the store has no other way to stop its threads).
+    #[cfg(rescrv_blue_verif)]
+    pub fn verif_shutdown(&self) {
+        let _mutex = self.compaction.lock().unwrap();
+        crate::verif::request_shutdown(self.verif_id());
+        crate::verif::notify(self.verif_id(), "stall", false);
+        crate::verif::notify(self.verif_id(), "compact", false);
+        self.stall.notify_all();
+        self.compact.notify_all();
     }
 
     pub fn get(&self, key: &[u8]) -> Result<Option<Vec<u8>>, SError> {
